@@ -364,6 +364,8 @@ struct sim {
 	uint64_t trace_hash;
 	uint64_t sent_hash; /* running hash over every byte the client wrote */
 	/* phase control */
+	bool monitors_off; /* the cache still answers, the conversation monitors stay silent (mgrmon) */
+	void *owner; /* harness back pointer */
 	volatile bool finished; /* park at next parkable point */
 	volatile bool parked;
 	bool spin_reported;
@@ -409,6 +411,8 @@ extern int *SIM_ALLOC_PAUSE; /* set when a failing allocator is installed: monit
 #define MON_PAUSE() do { if (SIM_ALLOC_PAUSE) (*SIM_ALLOC_PAUSE)++; } while (0)
 #define MON_RESUME() do { if (SIM_ALLOC_PAUSE) (*SIM_ALLOC_PAUSE)--; } while (0)
 extern __thread struct sim *CUR_SIM;
+/* multi-socket harnesses (mgrmon) install a gate that serialises the FSM threads at every transport call */
+extern void (*SIM_GATE)(struct sim *s, int cancel_enabled);
 
 void universe_build(struct universe *u, struct rng *r, int np, int nk);
 int universe_find_p(const struct universe *u, const struct prec *p);
